@@ -23,6 +23,9 @@ sys.path.insert(0, os.path.join(VERIF, 'translate'))
 REQUIRED = ['maskOffsets_length', 'maskOffsets_recorded', 'maskOffsets_marks', 'masked_le_blocked', 'countPresent_le',
             'offsets_length', 'offsets_chained', 'offsets_end', 'segmentation_tiles', 'decode_headers', 'segmentation_roundtrip',
             'gen_clevel_size', 'gen_clevel_dim', 'clevelRequired_ge_size']
+# bridge + property theorems of the regenerated method kernels (row limit of the SICD / SIDD writers, block and image sizes)
+K2_REQUIRED = ['gen_sicd_row_limit', 'gen_sidd_row_limit', 'requestedRows_range', 'rowLimit_le', 'rowLimit_bytes', 'rowLimit_pos', 'rowLimit_honours',
+               'gen_block_size', 'gen_block_size0', 'gen_full_image_size', 'gen_full_image_size0', 'blockBytes_whole_bytes']
 
 
 def dms_to_deg(s, is_lat):
@@ -188,9 +191,13 @@ def run(tier):
     rng = chk.rng
     import gen_nitf
     gen_info = gen_nitf.generate(os.path.join(VERIF, 'lean', 'SarpyModel', 'Gen', 'NitfKernels.lean'))
-    broken = chk.prove(['SarpyModel.Props.C03', 'SarpyModel.Drivers'], 'SarpyModel.Props.C03', 'Sarpy.Props.C03', REQUIRED, gen_info)
-    if gen_info['unsupported']:
-        broken.append('translator could not express: ' + json.dumps(gen_info['unsupported']))
+    import kernels2
+    k2_info = kernels2.regen()
+    gen_info = dict(gen_info, method_kernels=k2_info)
+    broken = chk.prove(['SarpyModel.Props.C03', 'SarpyModel.Bridge.Kernels2', 'SarpyModel.Drivers'], 'SarpyModel.Props.C03', 'Sarpy.Props.C03', REQUIRED, gen_info,
+                       extra=[('SarpyModel.Bridge.Kernels2', 'Sarpy.Bridge.K2', K2_REQUIRED)])
+    if gen_info['unsupported'] or k2_info['unsupported']:
+        broken.append('translator could not express: ' + json.dumps(gen_info['unsupported'] + k2_info['unsupported']))
 
     fails = []
     disagreements = []
@@ -342,6 +349,9 @@ def run(tier):
                 req, size_c, gen_c = ans[i].split()
                 if impl < int(req):
                     disagreements.append({'case': case, 'what': f'CLEVEL written {impl} < model requirement {req}'})
+    # method kernels: implementation vs regenerated Lean vs reference definition, and the direct oracle (byte cap, ILOC digits, block bytes)
+    nk = kernels2.run_kernels(rng, tier, ['rowlimit', 'blocksize', 'fullsize'], fails, disagreements, stats)
+    stats['model_cases'] = stats.get('model_cases', 0) + nk
     chk.coverage.update({
         'evaluations': stats.get('files', 0) + stats.get('model_cases', 0),
         'distinct_nontrivial': len(seen),
@@ -358,6 +368,7 @@ def run(tier):
         'harness/nitfparse.py is a hand transcription of the MIL-STD-2500C field tables (file header, image, text, DES, RES subheaders)',
         'IGEOLO is compared with a bilinear interpolation of the metadata corner points to 1.5 arc-seconds (field precision is 1 arc-second)',
         'general NITFWriter family: one single-band IMODE=B image, blocked (IC=NC) or block-masked (IC=NM, random absent blocks), 8/16 bit, plus 0-2 text, 0-2 DES, 0-1 RES segments; multi-band / IMODE P,S,R and pad-pixel masks are not generated',
+        'row limit / block size / image size kernels are regenerated from the writer and header methods (translate/gen_kernels2.py: attribute reads become parameters) and bridged by theorem; each is also called on the implementation with stand-in objects',
         'loop -> recursion step for default_image_segmentation (stepTiling) is validated by the segmentation correspondence, not proved',
     ]
     unknown = [f for f in fails if not (f.get('key') and chk.known(f['key']))]
@@ -376,6 +387,12 @@ def replay(path):
     logging.disable(logging.CRITICAL)
     case = json.load(open(path))['case']['case']
     print(case)
+    if 'kernel' in case:
+        import kernels2
+        a = case['args']
+        fn = {'rowlimit': kernels2.impl_rowlimit, 'blocksize': kernels2.impl_blocksize, 'fullsize': kernels2.impl_fullsize}[case['kernel']]
+        print(case['kernel'], a, '->', fn(*a))
+        return 1
     tmpdir = tempfile.mkdtemp(prefix='c03r_', dir='/var/tmp')
     fails = []
     try:
